@@ -9,6 +9,10 @@ Implementation driven (all real code, in a throw-away sandbox tree under tempfil
     new instance directory <sandbox>/loc/x.instance), also with source folders generated per case that hold
     symbolic links (any depth, any kind) and manifest keys nested below them.
 
+  * sequences of references (copy / copyout / link / extract) staged one after the other into the SAME working
+    directory by Job.stageIn or by repeated StageReference calls, with colliding and nested names and with links
+    already in the directory (Path.Model.stage_seq).
+
 Predicate (the property as stated): a recursive listing (names, kinds, sizes, contents digest, link
 targets) of everything in the sandbox OUTSIDE the target directory is the same before and after;
 every input that lexically leaves the target (member name, link target, manifest key) is refused, and
@@ -37,6 +41,10 @@ ASSUMPTIONS = [
     'checked by the sandbox listing only',
     'migrated components: Job.stageIn is run on a duck-typed migrated job; the statement checked (and proved, C18_migrated) is the '
     'designed behaviour — the working directory is removed and one link appears in the stage directory — not the letter of C18',
+    'sequences of references into one working directory: the real Job.stageIn (which stages copyout references last and '
+    'stops at the first failure) / StageReference called once per reference; what the directory holds before and after '
+    '(every entry, kind, lexically normalised link target) is read by the harness and compared with Path.Model.stage_seq; '
+    'what tarfile does when an accepted member meets an existing entry of another kind is not modelled (step marked inexact)',
     'Job.stageIn is driven with a duck-typed job (type, references, working directory); the DataReference objects are '
     'duck-typed (method, resolve(), stringRepresentation)',
     'ExperimentPackage is built over a duck-typed configuration (location, isExperimentPackageDirectory, manifestData)',
@@ -68,6 +76,17 @@ class Sandbox(object):
             with open(os.path.join(self.root, f), 'w') as fh:
                 fh.write(c)
         os.symlink('prod', os.path.join(self.root, 'srcs/plink'))
+        # producers whose outputs have the SAME names (sequences of references into one working directory): prod2/out.txt
+        # (file), prod2/sub/ (holds a link leading outside and one leading inside), prod3/out.txt/ (a DIRECTORY of that
+        # name), prod3/sub (a FILE of that name)
+        for d in ('srcs/prod2/sub', 'srcs/prod3/out.txt'):
+            os.makedirs(os.path.join(self.root, d))
+        for f, c in (('srcs/prod2/out.txt', 'two'), ('srcs/prod2/sub/y.dat', 'yy'), ('srcs/prod3/sub', 'a file'),
+                     ('srcs/prod3/out.txt/part', 'p'), ('srcs/prod3/other.txt', 'o')):
+            with open(os.path.join(self.root, f), 'w') as fh:
+                fh.write(c)
+        os.symlink(os.path.join(self.root, 'out'), os.path.join(self.root, 'srcs/prod2/sub/lnk'))
+        os.symlink('y.dat', os.path.join(self.root, 'srcs/prod2/sub/yl'))
         self.work = os.path.join(self.root, 't/work')
         self.inst = os.path.join(self.root, 'loc/x.instance')
 
@@ -606,6 +625,191 @@ def run_migrate_case(ctx, src_rel):
         pool.release(sb, True)
 
 
+# ------------------------------------------------------------------ sequences of references into ONE working directory
+# Job.stageIn stages a component's references one after the other into the same directory: a later reference finds what
+# the earlier ones (or an earlier run: [pre]) left there.  A step is (method, what): what = a source path relative to the
+# sandbox for copy / link / copyout, a member list for extract.  Names collide (same last segment from different
+# producers, file vs directory), nest (archive members below an earlier name) and meet links (of :link references, links
+# re-created by copytree, link members, links found in the directory: dangling, looping, leading outside or inside).
+SEQ_STEPS = {
+    'out.txt': [('link', 'srcs/prod/out.txt'), ('copy', 'srcs/prod2/out.txt'), ('copy', 'srcs/prod3/out.txt'),
+                ('link', 'srcs/prod3/out.txt'), ('copyout', 'srcs/prod/out.txt'),
+                ('extract', [('out.txt', 'file', '')]), ('extract', [('other.txt', 'file', ''), ('out.txt', 'sym', 'other.txt')]),
+                ('extract', [('out.txt/deep.txt', 'file', '')])],
+    'sub': [('link', 'srcs/prod/sub'), ('copy', 'srcs/prod2/sub'), ('copy', 'srcs/prod3/sub'), ('copyout', 'srcs/prod/sub'),
+            ('extract', [('sub/x.dat', 'file', '')]), ('extract', [('sub/lnk/e.txt', 'file', '')]), ('extract', [('sub', 'dir', '')]),
+            ('extract', [('sub', 'sym', SB + '/out')]), ('extract', [('sub/new/z', 'file', ''), ('sub/yl', 'file', '')])],
+}
+SEQ_OTHER = [('copy', 'srcs/a.b.txt'), ('link', 'srcs/plink'), ('copy', 'srcs/plink'), ('link', 'out/secret.txt'),
+             ('copy', 'out/secret.txt'), ('extract', [('d', 'dir', ''), ('d/k', 'file', '')]), ('copy', 'srcs/prod/'),
+             ('link', 'srcs/prod/.'), ('copy', 'srcs/prod'), ('extract', [('secret.txt', 'file', '')]),
+             ('extract', [('a.b.txt', 'sym', 'out.txt')]), ('copyout', 'srcs/prod3/other.txt')]
+# what the working directory holds before: (relative path, 'link' | 'file' | 'dir', link text)
+SEQ_PRE = {
+    'out.txt': [[('out.txt', 'link', SB + '/out/secret.txt')], [('out.txt', 'link', SB + '/out/new.txt')],
+                [('out.txt', 'link', 'nowhere')], [('out.txt', 'link', 'out.txt')], [('out.txt', 'link', SB + '/out')],
+                [('out.txt', 'file', '')], [('out.txt', 'dir', '')], [('out.txt', 'link', 'other.txt'), ('other.txt', 'file', '')],
+                [('out.txt', 'link', '../work2/keep.txt')]],
+    'sub': [[('sub', 'link', SB + '/out')], [('sub', 'link', 'real'), ('real', 'dir', '')], [('sub', 'dir', ''), ('sub/lnk', 'link', SB + '/out')],
+            [('sub', 'file', '')], [('sub', 'link', SB + '/t/work2')], [('sub', 'link', 'gone')]],
+}
+# boundary cases kept forever
+CORPUS_SEQ = [
+    # F18f: p1/out.txt:link then p2/out.txt:copy overwrote p1/out.txt through the link
+    ([], [('link', 'srcs/prod/out.txt'), ('copy', 'srcs/prod2/out.txt')]),
+    ([], [('link', 'srcs/prod/out.txt'), ('copyout', 'srcs/prod2/out.txt')]),
+    # F18f: a dangling link found in the directory made the copy create the file it names, outside
+    ([('out.txt', 'link', SB + '/out/new.txt')], [('copy', 'srcs/prod2/out.txt')]),
+    # a link member of an archive staged first, then a file copied on top of it
+    ([], [('extract', [('out.txt', 'sym', 'other.txt')]), ('copy', 'srcs/prod2/out.txt'), ('copy', 'srcs/prod3/other.txt')]),
+    # a directory copied into a name that is a link to a directory; a second link over the name; a file named like the link
+    ([], [('link', 'srcs/prod/sub'), ('copy', 'srcs/prod2/sub'), ('link', 'srcs/prod2/sub'), ('copy', 'srcs/prod3/sub')]),
+    # an archive member below a link that copytree re-created in the directory (prod2/sub/lnk -> out)
+    ([], [('copy', 'srcs/prod2/sub'), ('extract', [('sub/lnk/e.txt', 'file', '')]), ('extract', [('sub/new/z', 'file', '')])]),
+    # copy then link, file vs directory of the same name
+    ([], [('copy', 'srcs/prod2/out.txt'), ('link', 'srcs/prod/out.txt'), ('copy', 'srcs/prod3/out.txt'), ('copy', 'srcs/prod/out.txt')]),
+]
+
+
+def gen_seq(rng):
+    n = rng.choice(['out.txt', 'out.txt', 'sub'])
+    pre = list(rng.choice(SEQ_PRE[n])) if rng.random() < 0.35 else []
+    steps = []
+    for _ in range(rng.randint(2, 4)):
+        r = rng.random()
+        steps.append(rng.choice(SEQ_STEPS[n]) if r < 0.7 else
+                     (rng.choice(SEQ_STEPS['sub' if n == 'out.txt' else 'out.txt']) if r < 0.8 else rng.choice(SEQ_OTHER)))
+    return pre, steps
+
+
+def work_state(sb):
+    """every entry of the working directory: (relative path, kind code, lexically normalised canonical target of a link)"""
+    out = []
+    for rel, desc in sorted(listing(sb.work).items()):
+        kind = desc.split(':', 1)[0]
+        tgt = ''
+        if kind == 'link':
+            p = os.path.join(sb.work, rel)
+            tgt = sb.canonical(os.path.normpath(os.path.join(os.path.dirname(p), os.readlink(p))))
+        out.append((rel, {'dir': 0, 'file': 1, 'link': 2}[kind], tgt))
+    return out
+
+
+def seq_classes(pre, steps):
+    """F18f (fixed): a file is copied into a name that an earlier step, or the directory itself, may hold as a link"""
+    linked = set(r for r, k, _ in pre if k == 'link')
+    for method, what in steps:
+        if method == 'extract':
+            linked |= set(os.path.normpath(n) for n, k, _ in what if k == 'sym')
+        elif method == 'link':
+            linked.add(os.path.split(what)[1])
+        elif os.path.split(what)[1] in linked:
+            return ['copy_on_top_of_existing_link']
+    return []
+
+
+def run_seq_case(ctx, pre, steps, via_job, label):
+    import experiment.model.data as D
+    pool = POOLS['work']
+    sb = pool.acquire()
+    changed = True
+    try:
+        for rel, kind, text in pre:
+            q = os.path.join(sb.work, rel)
+            if not os.path.isdir(os.path.dirname(q)):
+                os.makedirs(os.path.dirname(q))
+            if kind == 'link':
+                os.symlink(sb.real(text), q)
+            elif kind == 'dir':
+                os.makedirs(q)
+            else:
+                with open(q, 'w') as fh:
+                    fh.write('found')
+        refs, terms, cseq = [], [], []
+        for i, (method, what) in enumerate(steps):
+            if method == 'extract':
+                arch = os.path.join(sb.root, 'arch', 's%d.tar' % i)
+                write_archive(arch, [(sb.real(n), k, sb.real(l)) for (n, k, l) in what], tarfile.GNU_FORMAT)
+                seen = [(sb.canonical(n), k, sb.canonical(l)) for (n, k, l) in read_members(arch)]
+                r = Ref('extract', arch)
+                terms.append('(RExtract %s)' % clist(seen, cmember))
+                cseq.append(['extract', [list(m) for m in seen]])
+            else:
+                src = os.path.join(sb.root, what)
+                csrc = os.path.join(sb.canon, what)
+                r = Ref(method, src)
+                if method == 'link':
+                    terms.append('(RLink %s)' % cstr(csrc))
+                elif os.path.isdir(src):
+                    terms.append('(RCopyDir %s %s)' % (cstr(csrc), ctree(source_tree(sb, src))[len('(Some '):-1]))
+                else:
+                    terms.append('(RCopyFile %s)' % cstr(csrc))
+                cseq.append([method, what])
+            r.stringRepresentation = 'producer%d:%s' % (i, method)
+            refs.append(r)
+        # Job.stageIn stages the copyout references after all others
+        order = list(range(len(steps)))
+        if via_job:
+            order = [i for i in order if steps[i][0] != 'copyout'] + [i for i in order if steps[i][0] == 'copyout']
+        canon = {'seq': cseq, 'pre': [[r, k, sb.canonical(sb.real(t))] for r, k, t in pre], 'via_job': via_job}
+        cls = seq_classes(pre, [steps[i] for i in order])
+        st0 = work_state(sb)
+        before = pool.snapshot(sb)
+
+        def code(e):
+            if type(e).__name__ == 'DataReferenceCouldNotStageError':
+                return 1 if REFUSED in str(e) else 2
+            return 3 if type(e).__name__ == 'DataReferenceFilesDoNotExistError' else 4
+        codes, errors = [], []
+        if via_job:
+            exc = stage(sb.work, refs, True)
+            if exc is None:
+                codes = [0] * len(order)
+            else:
+                at = [k for k, i in enumerate(order) if ('producer%d:' % i) in str(exc)]
+                codes = [0] * (at[0] if at else 0) + [code(exc)]
+                errors.append(type(exc).__name__)
+        else:
+            wd = WorkDir(sb.work)
+            for i in order:
+                try:
+                    D.StageReference(refs[i], wd, None)
+                    codes.append(0)
+                except BaseException as e:  # noqa
+                    codes.append(code(e))
+                    errors.append(type(e).__name__)
+        after = listing(sb.root, exclude=sb.work)
+        changed = before != after
+        ctx.case(canon, nontrivial=True)
+        ctx.count('seq:' + label)
+        ctx.count('seq:steps=%d' % len(steps))
+        for i, c in zip(order, codes):
+            ctx.count('seq:%s:%s' % (steps[i][0], {0: 'staged', 1: 'refused', 2: 'os-error'}.get(c, 'other')))
+        if cls:
+            ctx.count('seq:file-copied-onto-a-name-that-was-linked')
+        ch = diff_listing(before, after)
+        if ch:
+            ctx.fail(canon, 'staging a sequence of references into one working directory changed something outside it: %s' % ch[:3], cls)
+        if any(c > 2 for c in codes):
+            ctx.fail(canon, 'staging raised %s instead of a staging error' % errors, cls)
+        st1 = work_state(sb)
+        if any(k == 2 for _, k, _ in st1):
+            ctx.count('seq:directory-holds-links-afterwards')
+
+        def cfs(e):
+            rel, k, t = e
+            return cpair(csegs(os.path.join(sb.canonical(sb.work), rel)), ['EDir', 'EFile', '(ELink %s)' % csegs(t)][k])
+        term = '(%s, %s, %s, %s, %s, %s)' % (
+            csegs(sb.canonical(sb.work)), clist(st0, cfs), '[%s]' % '; '.join(terms[i] for i in order), cbool(via_job),
+            clist(codes, cnat), clist(st1, lambda e: '(%s, %s, %s)' % (csegs(e[0]), cnat(e[1]), csegs(e[2]))))
+        ctx.sample({'found in the directory': canon['pre'], 'references': [[m, w if isinstance(w, str) else w[:3]] for m, w in cseq],
+                    'via_job': via_job, 'codes (0 staged 1 refused 2 OSError)': codes,
+                    'directory afterwards': [[r, k, t] for r, k, t in st1][:8]}, limit=24)
+        return (term, canon, {'codes': codes, 'errors': errors, 'directory': [[r, k, t] for r, k, t in st1][:30]})
+    finally:
+        pool.release(sb, changed)
+
+
 # ------------------------------------------------------------------ source folders with links inside
 # A :copy entry brings the CONTENT of its source folder into the instance; what that content is made of — in
 # particular symbolic links at any depth (to directories, to files, dangling, absolute, relative, leading inside or
@@ -1010,14 +1214,16 @@ CORPUS_MAN = [
 ]
 
 
-def _explore(ctx, tar_cases, stage_cases, man_cases):
-    tar_terms, stage_terms, man_terms, pre_terms = [], [], [], []
+def _explore(ctx, tar_cases, stage_cases, man_cases, seq_cases=()):
+    tar_terms, stage_terms, man_terms, pre_terms, seq_terms = [], [], [], [], []
     try:
         _drive(ctx, tar_cases, stage_cases, man_cases, tar_terms, stage_terms, man_terms, pre_terms)
+        for c in seq_cases:
+            seq_terms.append(run_seq_case(ctx, c['pre'], c['seq'], c.get('via_job', True), c.get('label', 'gen')))
     finally:
         for p in POOLS.values():
             p.close()
-    _compare(ctx, tar_terms, stage_terms, man_terms, pre_terms)
+    _compare(ctx, tar_terms, stage_terms, man_terms, pre_terms, seq_terms)
 
 
 def _drive(ctx, tar_cases, stage_cases, man_cases, tar_terms, stage_terms, man_terms, pre_terms):
@@ -1037,10 +1243,11 @@ def _drive(ctx, tar_cases, stage_cases, man_cases, tar_terms, stage_terms, man_t
         man_terms.append(run_manifest_case(ctx, c['manifest'], c.get('label', 'gen'), c.get('dsl', False), c.get('trees')))
 
 
-def _compare(ctx, tar_terms, stage_terms, man_terms, pre_terms):
+def _compare(ctx, tar_terms, stage_terms, man_terms, pre_terms, seq_terms=()):
     for terms, checker, name in ((pre_terms, 'check_tar_pre', 'C18 archives into a working directory that holds links: StageReference check vs Path.Model.tar_check_pre'),
                                  (tar_terms, 'check_tar', 'C18 archives: StageReference check + created entries vs Path.Model.tar_check/created'),
                                  (stage_terms, 'check_stage', 'C18 copy/link: entry created by StageReference vs Path.Model.stage_name'),
+                                 (list(seq_terms), 'check_seq', 'C18 sequences of references into one working directory: code of every step (staged / refused / OSError) and every entry of the directory afterwards (kind, link target) vs Path.Model.stage_seq'),
                                  (man_terms, 'check_man3', 'C18 manifests: Manifest.validate / expandPackageToDirectory (accept/reject, completion, every entry of the instance with its kind) vs Path.Model.validate / deploy_ok / deploy_fs')):
         bad = ctx.model_mismatches(HEADER, [t[0] for t in terms], checker, chunk=120, name=checker)
         for i in bad:
@@ -1057,7 +1264,11 @@ def run(ctx):
                 'symbolic links at depth 0..2 (to directories / files / nothing, absolute / relative, leading outside, to a sibling '
                 'source folder, to the other generated folder, or inside the folder) with a second manifest key nested on / below / '
                 'next to an entry of the first target (70% a link of the source folder), in either order, with :copy and :link, and '
-                'entries whose source folder is itself such a link; copy/link sources x methods; non-trivial = has a link, a '
+                'entries whose source folder is itself such a link; copy/link sources x methods; SEQUENCES of 1..4 references '
+                '(copy / copyout / link / extract) staged into one working directory, via Job.stageIn and via repeated '
+                'StageReference: all ordered pairs over the steps that produce the same name (file, directory, link, archive '
+                'member on / below / through it), each step after each thing found in the directory (links outside / inside / '
+                'dangling / looping, files, directories holding links), random longer ones; non-trivial = has a link, a '
                 'parent segment, an absolute name or a nested key; distinct by the canonical input')
     quick = ctx.tier == 'quick'
     tar_cases = [{'members': m, 'label': 'corpus', 'via_job': i % 2 == 0} for i, m in enumerate(CORPUS_TAR)]
@@ -1104,8 +1315,23 @@ def run(ctx):
     for i in range(170 if quick else 2500):
         trees, m = gen_tree_manifest(rng)
         man_cases.append({'manifest': m, 'label': 'source-links', 'dsl': rng.random() < 0.3, 'trees': trees})
-    _explore(ctx, tar_cases, stage_cases, man_cases)
-    ctx.count('cases', len(tar_cases) + len(stage_cases) + len(man_cases))
+    # sequences of references staged into one working directory (drawn after everything else: the other streams keep
+    # their cases): the corpus, EVERY ordered pair of steps over the alphabet of each colliding name, every step after
+    # everything that may be found in the directory, and random sequences of 2..4 steps
+    seq_cases = [{'pre': pre, 'seq': seq, 'label': 'corpus', 'via_job': vj} for (pre, seq) in CORPUS_SEQ for vj in (True, False)]
+    for n in sorted(SEQ_STEPS):
+        al = SEQ_STEPS[n]
+        for i, a in enumerate(al):
+            for j, b in enumerate(al):
+                seq_cases.append({'pre': [], 'seq': [a, b], 'label': 'pairs', 'via_job': (i + j) % 3 == 0})
+        for k, pre in enumerate(SEQ_PRE[n]):
+            for i, a in enumerate(al):
+                seq_cases.append({'pre': pre, 'seq': [a], 'label': 'found+1', 'via_job': (i + k) % 2 == 0})
+    for i in range(120 if quick else 2500):
+        pre, seq = gen_seq(rng)
+        seq_cases.append({'pre': pre, 'seq': seq, 'label': 'gen', 'via_job': i % 2 == 0})
+    _explore(ctx, tar_cases, stage_cases, man_cases, seq_cases)
+    ctx.count('cases', len(tar_cases) + len(stage_cases) + len(man_cases) + len(seq_cases))
 
 
 def replay(ctx, path):
@@ -1121,7 +1347,7 @@ def replay(ctx, path):
 
     def unc(s):
         return s.replace(canon, SB)
-    if 'members' in c:
+    if 'members' in c and 'seq' not in c:
         tar_cases.append({'members': [(unc(n), k, unc(l)) for n, k, l in c['members']], 'via_job': c.get('via_job', True),
                           'pre_link': [(r, unc(t)) for r, t in c['pre_link']] if c.get('pre_link') is not None else None,
                          'label': 'replay'})
@@ -1131,8 +1357,13 @@ def replay(ctx, path):
                           'trees': trees})
     elif 'source' in c:
         stage_cases.append({'source': c['source'].split('/sb/', 1)[1], 'method': c['method'], 'via_job': c.get('via_job', True)})
+    seq_cases = []
+    if 'seq' in c:
+        tar_cases = []
+        seq_cases.append({'pre': [(r, k, unc(t)) for r, k, t in c['pre']], 'via_job': c.get('via_job', True), 'label': 'replay',
+                          'seq': [(m, w if isinstance(w, str) else [(unc(n), k, unc(l)) for n, k, l in w]) for m, w in c['seq']]})
     _ = canon_root
-    _explore(ctx, tar_cases, stage_cases, man_cases)
+    _explore(ctx, tar_cases, stage_cases, man_cases, seq_cases)
     for f in ctx.failures:
         print('REPRODUCED: %s on %s' % (f['what'], json.dumps(f['case'])[:400]))
     for f in ctx.disagreements:
